@@ -51,7 +51,11 @@ GCfgUdp == ConfigsOver({"udp"}, {5}, {FALSE}, {"v4", "v6"})
 GCfgUdpMc == ConfigsOver({"udp"}, {5}, {TRUE}, {"v4", "v6"})
 GCfgAllApi == ConfigsOver({"udp", "recv", "fallback"}, {5}, BOOLEAN, {"v4", "v6"})
 GCfgRecvFb == ConfigsOver({"recv", "fallback"}, {5}, {FALSE}, {"v6"})
-GCfgClock == {c \in ConfigsOver({"udp", "recv", "fallback"}, {0, 3, 5}, {FALSE}, {"v4"}) :
+GCfgClock0 == {c \in ConfigsOver({"udp", "recv", "fallback"}, {0, 1, 3, 5}, {FALSE}, {"v4"}) :
                  ~c.rot /\ c.hasq /\ ~c.anysrc /\ c.it}
+\* ... and the zero timeouts (0, 0.0, tiny), for every entry point incl. udp_with_fallback
+GCfgZero == ZeroTimeouts({c \in ConfigsOver({"udp", "recv", "fallback"}, {0}, {FALSE}, {"v4"}) :
+                             c.hasq /\ ~c.anysrc /\ c.it /\ (c.api = "fallback" \/ ~c.rot)})
+GCfgClock == GCfgClock0 \cup GCfgZero
 GCfgV6 == ConfigsOver({"udp"}, {5}, {FALSE}, {"v6"})
 =============================================================================
